@@ -23,7 +23,7 @@ CHECKS = {
          "Exploration with a bounded-exhaustive core: all pairs of byte strings of length 0..3 over {00,01,02,ff} (quick; 0..4 over {00,01,02,7f,ff} thorough) are encoded with the real encoder (exposed under the verif tag) and compared in specification order, which decides injectivity and order preservation for every pair of the enumerated space; Uint16 over its whole domain, Int over the whole domain of int, all six decimal string parsers inside and outside their domains, index.Set keys, 32/64-bit encoders over boundary sets and seeded samples, LPM keys for all prefix lengths 0..32 x sampled words. Long primaries are probed at listed lengths only.",
          "The enumerated space is small by design (short strings); long keys only at the listed probe lengths (those failing are known findings D9). Signed encoders are only checked for injectivity, as the statement says.", "5/C18"),
  "C20": ("virtual-time (testing/synctest) monitor comparing return time, returned set, error and Has() of WatchSet.Wait with an executable model over random close/cancel/settle schedules, earlier results re-read after later calls; concurrent Wait/Add/Has on one set under the race detector with an exactly-once oracle over all returned channels",
-         "Exploration: seeded random schedules run under virtual time so that return instants are exact; up to three consecutive Wait calls per set; sets built with Add duplicates, Clear and Merge, a quarter with a nil member; contexts of four kinds (cancel, cancel with cause, deadline, deadline with cause); all three settle regimes and cancellation before/after the first close; plus real-time runs under -race in which 2-4 goroutines call Wait on one set while others add, close and probe (every channel returned at most once, only added and closed ones, membership afterwards).",
+         "Exploration: seeded random schedules run under virtual time so that return instants are exact; up to three consecutive Wait calls per set; sets built with Add duplicates, Clear and Merge, a quarter with a nil member; contexts of four kinds (cancel, cancel with cause, deadline, deadline with cause); all three settle regimes and cancellation before/after the first close, calls whose context has ended before the call (consistency only), sets of up to 65 535 members; plus real-time runs under -race in which 2-4 goroutines call Wait on one set while others add, close and probe (every channel returned at most once, only added and closed ones, membership afterwards).",
          "Event times are kept distinct so the model has no ties; real-timer granularity is out of scope (virtual time); in the concurrent part a closed member not returned within 30 s of wall-clock time is reported inconclusive, not as a violation.", "5/C20"),
  "C01": ("transcript monitor: retained snapshots (and retained result sequences) are re-queried after every later transaction/abort/collection window and compared with the transcript recorded at creation and with the model of that snapshot; virtual time for graveyard collection; race detector with concurrent snapshot readers, a writer and a table registrar",
          "Exploration: seeded random histories under testing/synctest with the DB started; up to 16 retained snapshots per history taken between transactions (transcripts include Initialized/PendingInitializers; transactions register and complete initializers), while a write transaction is pending and from Commit; LPM-heavy variant with several objects per prefix; table registrations running into commits; plus a -race part where 6 readers rebuild the model from each snapshot's primary index, check every index against it and keep re-verifying retained transcripts (and the set of tables) while a writer history and a registrar run.",
@@ -44,10 +44,10 @@ CHECKS = {
          "Fault enumeration: writer A is paused at each of 9 hook points (commit and abort variants) while a same-table writer, a disjoint-table writer or NewTable runs; plus 4 probes of write transactions with an empty table set and a writer holding every table against empty-set committers; plus exploration by concurrent histories under -race with delays injected at the hook points, every history checked by porcupine against a counter-vector model, and by full-speed disjoint writers (32 tables, 320 000 back-to-back commits per run, registrar and empty-set committer running) each checking that it starts from what it committed last.",
          "Windows without a hook point are reached only by the stress part; the 'B must not be granted' probe waits 1.5 ms (reaching the lock is definite, not reaching it just ends the probe); porcupine timeouts are inconclusive.", "5/C05"),
  "C10": ("lock-order monitor (lockdep style) on every table-lock acquisition + hook-point independence probes + race-detector stress with progress watchdog and hook-derived wait-for snapshot",
-         "Fault enumeration: with a writer paused at each of 9 hook points, readers, disjoint committers, iterator create/close and duplicate/unordered table sets must complete (committers may queue at commit.rootLocked); exploration: 2-32 goroutines over 2-8 tables with iterators, 1 ms collection and table registration under -race; a WriteTxn refused for an unregistered table, the library's db/insert and db/delete script commands on every exit path, a Derive job stopped idle or in mid-batch, and a collector whose scanned objects were all resurrected must leave all tables lockable; strictly increasing lock sequence numbers are asserted on every acquisition, which catches ordering/de-duplication bugs on every execution rather than only when a deadlock happens.",
+         "Fault enumeration: with a writer paused at each of 9 hook points, readers, disjoint committers, iterator create/close and duplicate/unordered table sets must complete (committers may queue at commit.rootLocked); exploration: 2-32 goroutines over 2-8 tables with iterators, 1 ms collection and table registration under -race; a WriteTxn refused for an unregistered table, the library's db/insert and db/delete script commands on every exit path, a Derive job stopped idle or in mid-batch, an Observable whose context ends before, during or after registration, and a collector whose scanned objects were all resurrected must leave all tables lockable; strictly increasing lock sequence numbers are asserted on every acquisition, which catches ordering/de-duplication bugs on every execution rather than only when a deadlock happens.",
          "A watchdog firing without wait-for evidence is reported inconclusive; bounded progress = the fixed operation count completes.", "5/C10"),
  "C02": ("hook-point pause/probe controller: snapshots taken by a second goroutine while the writer is paused at every step inside Commit/Abort (all-or-none + conserved sum); abort-vs-never-ran model comparison over random histories; race-detector stress with conserved sums, per-tag all-or-none and porcupine",
-         "Fault enumeration over the 10 pause points of WriteTxn/Commit/Abort with 2-4 table transactions, plus exploration: aborted transactions of every operation kind (incl. initializer registrations and completions, writes on tables not held) compared with the model in which they never ran (battery on every index, revisions, initialization state, retained watch channels, retained snapshots, behaviour of later transactions; a write transaction used as a snapshot of tables it does not hold must not see later commits through Next), plus concurrent transfer workloads under -race whose every snapshot must show the conserved total and all-or-none of each transaction's rows.",
+         "Fault enumeration over the 10 pause points of WriteTxn/Commit/Abort with 2-4 table transactions (snapshots from a second goroutine and a second writer queued behind the paused one: all or nothing), plus exploration: aborted transactions of every operation kind (incl. initializer registrations and completions, writes on tables not held) compared with the model in which they never ran (battery on every index, revisions, initialization state, retained watch channels, retained snapshots, behaviour of later transactions; a write transaction used as a snapshot of tables it does not hold must not see later commits through Next), plus concurrent transfer workloads under -race whose every snapshot must show the conserved total and all-or-none of each transaction's rows.",
          "The 'never ran' reference is the executable model, not a second database; graveyard retention after abort is observed through change iterators (C07 oracle), not through counts.", "5/C02"),
  "C06": ("watch-channel oracle over random histories (model decides must-close at every Commit, no-close after Abort, open at hand-out) + commit-phase monitor at the hook points inside Commit + woken-reader revision check with concurrent waiters under the race detector",
          "Fault enumeration at the hook points commit.beforeRootLock / commit.rootLocked / commit.afterNotify (no channel closed before the root store; closed channels imply a newer visible revision) on every commit of seeded random histories with up to 40 retained channels of every *Watch variant on every index kind (and a wide fan-out variant whose sweep transactions replace nodes of every radix size under retained channels); plus waiter goroutines under -race with delay injection.",
@@ -65,7 +65,7 @@ CHECKS = {
          "Exploration: the C14 runs with every placement of user writes {between rounds, inside Update/Delete/UpdateBatch, between the operation and the status commit} x {update, delete, delete+re-insert, status-only by a second reconciler} x {success, failure}; invariants evaluated at every quiescent point; a third of the runs use a copy-returning status setter; sequential runs in which user transactions keep the table locked for a while of virtual time while the reconciler and the refresher wait (hook gate); in a third of the runs 1-4 further real reconcilers share the table (their statuses must be backed by their own attempts); plus a value-semantics part for StatusSet (Set/Pending/JSON on a pool of versions, every earlier version re-read).",
          "The model of user writes is updated under the table lock; quiescent points are synctest.Wait() after sleeping.", "5/C15"),
  "C16": ("virtual-time monitor over the timestamps of operation attempts and the values returned by WaitUntilReconciled, exact in pacing runs",
-         "Exploration: general runs check the lower bound (no retry sooner than RetryBackoffMin), that WaitUntilReconciled(rev) never returns nil before every still-current change <= rev was attempted, and every returned zero watermark against the round log (an untouched object that failed three rounds ago must show); streak runs check the waits of 25-45 consecutive failures under backoffs up to 1 h / 24 h; pacing runs (instantaneous operations, unlimited limiter) check non-shrinking waits, the cap, the fresh first wait after change/success and the exact low-watermark at quiescent points.",
+         "Exploration: general runs check the lower bound (no retry sooner than RetryBackoffMin), that WaitUntilReconciled(rev) never returns nil before every still-current change <= rev was attempted, and every returned zero watermark against the round log (an untouched object that failed three rounds ago must show); streak runs check the waits of 25-45 consecutive failures under backoffs up to 1 h / 24 h; lock-held runs add slow lock holders, refreshing and reconciler rounds forced between a commit's root store and its notifications while its revision is waited for; pacing runs (instantaneous operations, unlimited limiter) check non-shrinking waits, the cap, the fresh first wait after change/success and the exact low-watermark at quiescent points.",
          "A status-only write by another reconciler between a failure and the next attempt makes that pair unjudged (both immediate reprocessing and paced retry are legitimate); the lower bound is judged in runs without refreshing and without further real reconcilers (their writes are not in the event log) and exactly in the pacing runs; 'change up to rev' is read by revision: an object that another writer moved to a revision above rev is a later change; watermark model = revision argument of the oldest pending failed attempt.", "5/C16"),
 }
 
